@@ -293,6 +293,8 @@ entry("repeat", lambda c: ops.repeat(c.p), "agnostic", "resub")
 entry("retry", lambda c: ops.retry(c.p), "agnostic", "resub")
 entry("while_do", lambda c: ops.while_do(c.cond()), "cb", "agnostic", "resub", "nocold")
 entry("do_while", lambda c: ops.do_while(c.cond()), "cb", "agnostic", "resub", "nocold")
+entry("while_do_pure", lambda c: reactivex.compose(ops.while_do(lambda _: (c.tick(), True)[1]), ops.take(c.p + 2)), "cb", "agnostic", "resub")
+entry("do_while_pure", lambda c: reactivex.compose(ops.do_while(lambda _: (c.tick(), True)[1]), ops.take(c.p + 2)), "cb", "agnostic", "resub")
 # merging / switching
 entry("merge", lambda c: ops.merge(c.other()), "other", "agnostic")
 entry("merge_max", lambda c: reactivex.compose(ops.map(c.inner()), ops.merge(max_concurrent=c.m)), "cb", "inner", "agnostic")
@@ -355,8 +357,8 @@ obs_entry("window_with_time", lambda c: ops.window_with_time(_t(c.cm), _t(c.cp +
 obs_entry("window_with_time_or_count", lambda c: ops.window_with_time_or_count(_t(c.cp + 1), c.m), "time", "agnostic")
 obs_entry("group_by", lambda c: ops.group_by(c.key(), c.mapper()), "cb", "inspect")
 obs_entry("group_by_until", lambda c: ops.group_by_until(c.key(), c.mapper(), c.inner()), "cb", "inner", "inspect")
-entry("partition", lambda c: (lambda s: reactivex.merge(*ops.partition(c.pred())(s))), "cb", "obs", "inspect")
-entry("partition_indexed", lambda c: (lambda s: reactivex.merge(*ops.partition_indexed(c.pred_i())(s))), "cb", "obs", "inspect")
+entry("partition", lambda c: (lambda s: reactivex.merge(*ops.partition(c.pred())(s))), "cb", "obs", "inspect", "multi")
+entry("partition_indexed", lambda c: (lambda s: reactivex.merge(*ops.partition_indexed(c.pred_i())(s))), "cb", "obs", "inspect", "multi")
 # multicasting
 entry("share", lambda c: ops.share(), "multi", "agnostic")
 entry("publish_refcount", lambda c: reactivex.compose(ops.publish(), ops.ref_count()), "multi", "agnostic")
